@@ -217,21 +217,21 @@ theorem countP_split (l : List ℝ) (x y : ℝ) (h : x < y) :
         omega
 
 /-- the inner `while` loop on a sorted suffix whose elements are all `≥ x`: it consumes exactly
-    the elements `≤ x` (i.e. `= x`) and adds `inc` for each -/
-theorem advance_spec (x inc : ℝ) (rest : List ℝ) :
-    ∀ f : ℝ, rest.Pairwise (· ≤ ·) → (∀ a ∈ rest, x ≤ a) →
-      ks_twosample.advance x inc rest f
+    the elements `≤ x` (i.e. `= x`) and counts them (since 5af6953 the loop only counts) -/
+theorem advance_spec (x : ℝ) (rest : List ℝ) :
+    ∀ c : Int, rest.Pairwise (· ≤ ·) → (∀ a ∈ rest, x ≤ a) →
+      ks_twosample.advance x rest c
         = (rest.filter (fun a => decide (x < a)),
-            f + inc * ((rest.countP (fun a => decide (a ≤ x)) : ℕ) : ℝ)) := by
+            c + ((rest.countP (fun a => decide (a ≤ x)) : ℕ) : Int)) := by
   induction rest with
-  | nil => intro f _ _; simp [ks_twosample.advance]
+  | nil => intro c _ _; simp [ks_twosample.advance]
   | cons a t ih =>
-    intro f hs hx
+    intro c hs hx
     rw [List.pairwise_cons] at hs
     unfold ks_twosample.advance
     by_cases hax : a = x
     · have hb : ((a == x) = true) := by simpa using hax
-      rw [if_pos hb, ih (f + inc) hs.2 (fun b hb => hx b (List.mem_cons_of_mem _ hb))]
+      rw [if_pos hb, ih (c + 1) hs.2 (fun b hb => hx b (List.mem_cons_of_mem _ hb))]
       have h1 : ¬ x < a := by rw [hax]; exact lt_irrefl _
       have h2 : a ≤ x := hax.le
       simp only [List.filter_cons, h1, decide_false, Bool.false_eq_true, if_false,
@@ -253,24 +253,25 @@ theorem advance_spec (x inc : ℝ) (rest : List ℝ) :
         List.countP_eq_zero.2 (fun b hb => by simpa using hall b hb)
       rw [hf, hc]; simp
 
-/-- `f1 − f2` at the point `x` when the loop is in the state `(r1, f1), (r2, f2)` -/
-noncomputable def gap (i1 i2 : ℝ) (r1 r2 : List ℝ) (f1 f2 x : ℝ) : ℝ :=
-  (f1 + i1 * ((r1.countP (fun a => decide (a ≤ x)) : ℕ) : ℝ))
-    - (f2 + i2 * ((r2.countP (fun a => decide (a ≤ x)) : ℕ) : ℝ))
+/-- `f1 − f2 = i/n1 − j/n2` at the point `x` when the loop is in the state `(r1, c1), (r2, c2)`
+    (counts `c1`, `c2`, unconsumed suffixes `r1`, `r2`) -/
+noncomputable def gap (n1 n2 : ℝ) (r1 r2 : List ℝ) (c1 c2 : Int) (x : ℝ) : ℝ :=
+  (((c1 + ((r1.countP (fun a => decide (a ≤ x)) : ℕ) : Int) : Int) : ℝ) / n1)
+    - (((c2 + ((r2.countP (fun a => decide (a ≤ x)) : ℕ) : Int) : Int) : ℝ) / n2)
 
 /-- LOOP INVARIANT of `for x in data_all.iter()`, in generalised form: from any state whose
     unconsumed suffixes are sorted and contained in the remaining (strictly increasing) points `Q`,
-    the loop returns the running maxima of `±(f1 − f2)` over `Q` -/
+    the loop returns the running maxima of `±(i/n1 − j/n2)` over `Q` -/
 theorem fold_spec (n1 n2 : ℝ) (Q : List ℝ) (hQ : Q.Pairwise (· < ·)) :
-    ∀ (r1 r2 : List ℝ) (f1 f2 dp dm : ℝ), r1.Pairwise (· ≤ ·) → r2.Pairwise (· ≤ ·) →
+    ∀ (r1 r2 : List ℝ) (c1 c2 : Int) (dp dm : ℝ), r1.Pairwise (· ≤ ·) → r2.Pairwise (· ≤ ·) →
       (∀ a ∈ r1, a ∈ Q) → (∀ a ∈ r2, a ∈ Q) →
-      (Q.foldl (ks_twosample.step n1 n2) ((r1, f1), ((r2, f2), (dp, dm)))).2.2
-        = (Q.foldl (fun acc x => max acc (gap ((1.0 : ℝ) / n1) ((1.0 : ℝ) / n2) r1 r2 f1 f2 x)) dp,
-           Q.foldl (fun acc x => max acc (gap ((1.0 : ℝ) / n2) ((1.0 : ℝ) / n1) r2 r1 f2 f1 x)) dm) := by
+      (Q.foldl (ks_twosample.step n1 n2) ((r1, c1), ((r2, c2), (dp, dm)))).2.2
+        = (Q.foldl (fun acc x => max acc (gap n1 n2 r1 r2 c1 c2 x)) dp,
+           Q.foldl (fun acc x => max acc (gap n2 n1 r2 r1 c2 c1 x)) dm) := by
   induction Q with
   | nil => intros; rfl
   | cons x Q' ih =>
-    intro r1 r2 f1 f2 dp dm hs1 hs2 hm1 hm2
+    intro r1 r2 c1 c2 dp dm hs1 hs2 hm1 hm2
     rw [List.pairwise_cons] at hQ
     have hge : ∀ (r : List ℝ), (∀ a ∈ r, a ∈ x :: Q') → ∀ a ∈ r, x ≤ a := by
       intro r hr a ha
@@ -286,31 +287,31 @@ theorem fold_spec (n1 n2 : ℝ) (Q : List ℝ) (hQ : Q.Pairwise (· < ·)) :
       · exact absurd hxa (lt_irrefl _)
       · exact h
     simp only [List.foldl_cons]
-    have hstep : ks_twosample.step n1 n2 ((r1, f1), ((r2, f2), (dp, dm))) x
+    have hstep : ks_twosample.step n1 n2 ((r1, c1), ((r2, c2), (dp, dm))) x
         = ((r1.filter (fun a => decide (x < a)),
-              f1 + ((1.0 : ℝ) / n1) * ((r1.countP (fun a => decide (a ≤ x)) : ℕ) : ℝ)),
+              c1 + ((r1.countP (fun a => decide (a ≤ x)) : ℕ) : Int)),
            ((r2.filter (fun a => decide (x < a)),
-              f2 + ((1.0 : ℝ) / n2) * ((r2.countP (fun a => decide (a ≤ x)) : ℕ) : ℝ)),
-            (max dp (gap ((1.0 : ℝ) / n1) ((1.0 : ℝ) / n2) r1 r2 f1 f2 x),
-             max dm (gap ((1.0 : ℝ) / n2) ((1.0 : ℝ) / n1) r2 r1 f2 f1 x)))) := by
+              c2 + ((r2.countP (fun a => decide (a ≤ x)) : ℕ) : Int)),
+            (max dp (gap n1 n2 r1 r2 c1 c2 x),
+             max dm (gap n2 n1 r2 r1 c2 c1 x)))) := by
       unfold ks_twosample.step
-      simp only [advance_spec x _ r1 f1 hs1 (hge r1 hm1), advance_spec x _ r2 f2 hs2 (hge r2 hm2),
-        rfun_fmax, gap]
+      simp only [advance_spec x r1 c1 hs1 (hge r1 hm1), advance_spec x r2 c2 hs2 (hge r2 hm2),
+        rfun_fmax, rfun_ofInt, gap]
     rw [hstep, ih hQ.2 _ _ _ _ _ _ (hs1.filter _) (hs2.filter _) (hsub r1 hm1) (hsub r2 hm2)]
-    have key : ∀ (i1 i2 : ℝ) (s1 s2 : List ℝ) (g1 g2 : ℝ), ∀ y ∈ Q',
-        gap i1 i2 (s1.filter (fun a => decide (x < a))) (s2.filter (fun a => decide (x < a)))
-          (g1 + i1 * ((s1.countP (fun a => decide (a ≤ x)) : ℕ) : ℝ))
-          (g2 + i2 * ((s2.countP (fun a => decide (a ≤ x)) : ℕ) : ℝ)) y
-        = gap i1 i2 s1 s2 g1 g2 y := by
-      intro i1 i2 s1 s2 g1 g2 y hy
+    have key : ∀ (m1 m2 : ℝ) (s1 s2 : List ℝ) (g1 g2 : Int), ∀ y ∈ Q',
+        gap m1 m2 (s1.filter (fun a => decide (x < a))) (s2.filter (fun a => decide (x < a)))
+          (g1 + ((s1.countP (fun a => decide (a ≤ x)) : ℕ) : Int))
+          (g2 + ((s2.countP (fun a => decide (a ≤ x)) : ℕ) : Int)) y
+        = gap m1 m2 s1 s2 g1 g2 y := by
+      intro m1 m2 s1 s2 g1 g2 y hy
       have hxy : x < y := hQ.1 y hy
       unfold gap
       rw [← countP_split s1 x y hxy, ← countP_split s2 x y hxy]
       push_cast
       ring
     congr 1
-    · exact List.foldl_ext _ _ _ (fun acc y hy => by rw [key _ _ r1 r2 f1 f2 y hy])
-    · exact List.foldl_ext _ _ _ (fun acc y hy => by rw [key _ _ r2 r1 f2 f1 y hy])
+    · exact List.foldl_ext _ _ _ (fun acc y hy => by rw [key _ _ r1 r2 c1 c2 y hy])
+    · exact List.foldl_ext _ _ _ (fun acc y hy => by rw [key _ _ r2 r1 c2 c1 y hy])
 
 /-! ## closed form of `ks_twosample.stats` -/
 
@@ -368,15 +369,13 @@ theorem stats_eq (data1 data2 : List ℝ) :
     (sortR_sorted data2) (hmem data1 (fun a ha => Or.inl ha)) (hmem data2 (fun a ha => Or.inr ha))]
   have hz : (0.0 : ℝ) = 0 := by norm_num
   have key : ∀ (d d' : List ℝ) (x : ℝ),
-      gap ((1.0 : ℝ) / (RFun.ofInt (listLen d) : ℝ)) ((1.0 : ℝ) / (RFun.ofInt (listLen d') : ℝ))
+      gap (RFun.ofInt (listLen d) : ℝ) (RFun.ofInt (listLen d') : ℝ)
         (sortBy (fun a b : ℝ => decide (a ≤ b)) d) (sortBy (fun a b : ℝ => decide (a ≤ b)) d')
-        (0 : ℝ) (0 : ℝ) x = ecdf d x - ecdf d' x := by
+        (0 : Int) (0 : Int) x = ecdf d x - ecdf d' x := by
     intro d d' x
     unfold gap ecdf listLen
     rw [(sortBy_perm _ d).countP_eq, (sortBy_perm _ d').countP_eq]
-    have h1 : (1.0 : ℝ) = 1 := by norm_num
-    simp only [rfun_ofInt, h1, Int.cast_natCast]
-    ring
+    simp only [rfun_ofInt, Int.cast_natCast, zero_add]
   rw [hz]
   congr 1
   · exact List.foldl_ext _ _ _ (fun acc y _ => by rw [key])
